@@ -289,6 +289,11 @@ class TextFileProvider(FileProvider):
         if args:
             rc, out = self.ctx.shell_out(args, keep_rc=True, env=SAFE_ENV)
             self.rc = rc
+            if rc not in (0, 1):
+                # 0: lines selected, 1: no line selected; anything else means
+                # grep itself failed (e.g. the file was rotated away) and
+                # `out` is its error message, not content of the file
+                raise ContentException("Pre-filtering %s failed: %s" % (self.path, " ".join(out)))
             return out
 
         fsize = os.stat(self.path).st_size
